@@ -9,6 +9,9 @@ ad hoc by the driver, statement by statement:
 * `PwHash::from_string(s)?.to_string()` through `memlimit = 1024 * m_cost` and `convert_costs`
 * `PwHash::from_string(s)?.verify(pwd)` (the verification route that goes through `crypto_pwhash`)
 
+* the code-shaped `hash_with_salt` / `verify` / `hash` with their leading `Vec::resize` (`…Raw`), and the size of the
+  allocation request of `argon2_hash` (`argon2MemoryRequest`, `strVerifyMemoryRequest`)
+
 Nothing in `Model/Argon2.lean` or `Model/PwhashStr.lean` is changed.  Core Lean only.
 -/
 namespace DryocVerif.Model.Argon2
@@ -33,6 +36,68 @@ def objVerify (hash salt : Bytes) (hashLength opslimit memlimit alg : Nat) (pwd 
   | .ok computed => if hash = computed then .ok () else .err
   | .err => .err
   | .panic => .panic
+
+/-! ### the code-shaped versions: `Vec::resize` BEFORE `crypto_pwhash`
+
+`objHashWithSalt` / `objVerify` above are the *typed* model: they start at the call of `crypto_pwhash`.  The Rust
+first executes `let mut hash = Hash::new_bytes(); hash.resize(config.hash_length, 0);` — for `Hash = Vec<u8>` a
+`Vec::resize` from length 0, whose `RawVec` reserve panics with "capacity overflow" as soon as the requested
+length exceeds `isize::MAX = 2^63 − 1` (64-bit target) — i.e. BEFORE `crypto_pwhash` can answer `Err` for
+`hash_length > ARGON2_MAX_OUTLEN`.  The `…Raw` definitions put that statement in front.  (For
+`hash_length ≤ isize::MAX` the allocation itself is assumed to succeed: `Vec::resize` aborts the process
+otherwise — not a panic, not an `Err`.) -/
+
+/-- `isize::MAX` on a 64-bit target: the largest capacity a `Vec<u8>` may request -/
+def ISIZE_MAX : Nat := 2 ^ 63 - 1
+
+/-- `PwHash::<Vec<u8>, _>::hash_with_salt(password, salt, config)` from its first statement:
+`hash.resize(config.hash_length, 0)` (capacity-overflow panic above `isize::MAX`), then `crypto_pwhash(..)?`. -/
+def objHashWithSaltRaw (hashLength : Nat) (salt : Bytes) (opslimit memlimit alg : Nat) (pwd : Bytes) :
+    Outcome Bytes :=
+  if hashLength > 2 ^ 63 - 1 then .panic
+  else objHashWithSalt hashLength salt opslimit memlimit alg pwd
+
+/-- `PwHash::<Vec<u8>, _>::verify(&self, password)` from its first statement: `hash_with_salt(password,
+self.salt.clone(), self.config.clone())?` (with its `resize`), then `ct_eq`. -/
+def objVerifyRaw (hash salt : Bytes) (hashLength opslimit memlimit alg : Nat) (pwd : Bytes) : Outcome Unit :=
+  match objHashWithSaltRaw hashLength salt opslimit memlimit alg pwd with
+  | .ok computed => if hash = computed then .ok () else .err
+  | .err => .err
+  | .panic => .panic
+
+/-- `PwHash::<Vec<u8>, Vec<u8>>::hash(password, config)` from its first statement: `hash.resize(config.hash_length, 0)`,
+`salt.resize(config.salt_length, 0)` (each a capacity-overflow panic above `isize::MAX`), `copy_randombytes(salt)`,
+`crypto_pwhash(..)?`.  `salt` is the content of the salt vector after `copy_randombytes`, so
+`config.salt_length = salt.length`; the result is `(hash, salt)`. -/
+def objHashRaw (hashLength : Nat) (salt : Bytes) (opslimit memlimit alg : Nat) (pwd : Bytes) :
+    Outcome (Bytes × Bytes) :=
+  if hashLength > 2 ^ 63 - 1 then .panic
+  else if salt.length > 2 ^ 63 - 1 then .panic
+  else match objHashWithSalt hashLength salt opslimit memlimit alg pwd with
+    | .ok hash => .ok (hash, salt)
+    | .err => .err
+    | .panic => .panic
+
+/-! ### what `argon2_hash` asks the allocator for
+
+`Argon2Instance::initialize` executes `self.region.memory.resize(self.memory_blocks as usize, Default::default())`
+(and `pseudo_rands.resize(segment_length, 0)`).  In the model that is `Array.replicate`, which cannot fail; in Rust
+`Vec::resize` ABORTS the process when the host cannot back the request.  The size of the request is therefore
+spelled out (no oracle for the allocator is introduced). -/
+
+/-- the number of 1024-byte blocks `argon2_hash(t, m, p, pwd, salt, None, None, out, ty)` requests with
+`memory.resize(memory_blocks, …)`; `none` when the call returns `Err` or panics BEFORE `Argon2Instance::initialize`
+(geometry, `Argon2Context::new`, `Argon2Instance::new` — the same prefix as `argon2Hash`). -/
+def argon2MemoryRequest (ty t m p pwdlen saltlen outlen : Nat) : Option Nat :=
+  match memoryGeometry m p with
+  | .ok (memoryBlocks, segmentLength) =>
+    match validate outlen pwdlen saltlen none none t m p with
+    | .ok () =>
+      match Instance.new memoryBlocks segmentLength ty t p with
+      | .ok inst => some inst.memoryBlocks
+      | _ => none
+    | _ => none
+  | _ => none
 
 end DryocVerif.Model.Argon2
 
@@ -106,5 +171,15 @@ def strVerifyRaw (s : Str) (pwd : Bytes) : Outcome Unit :=
     | _, _, _, _, _ => .panic
   | .err => .err
   | .panic => .panic
+
+/-- the number of 1024-byte blocks `crypto_pwhash_str_verify(s, pwd)` requests from the allocator (through
+`argon2_hash(t, m, p, pwd, salt, None, None, &mut [0u8; 32], type)`); `none` when it returns before allocating -/
+def strVerifyMemoryRequest (s : Str) (pwd : Bytes) : Option Nat :=
+  match parse s with
+  | .ok r =>
+    match r.ty, r.t, r.m, r.p, r.salt with
+    | some ty, some t, some m, some p, some salt => argon2MemoryRequest ty.num t m p pwd.length salt.length 32
+    | _, _, _, _, _ => none
+  | _ => none
 
 end DryocVerif.Model.PwhashStr
